@@ -167,11 +167,20 @@ ExtractCodes(e) ==
                   \cup (LET m == Lookup(e.tm, n[2]) IN
                         IF ~m[1] THEN {<<"C16.closed", t>>}             \* wire name not in the type map
                         ELSE IF ~TSame(T, m[2], t) THEN {<<"C16.consistent", t>>} ELSE {})
-             : t \in need})
+             : t \in need}
+           \* two different slice types under ONE wire name: the type map can map it back to one of them only
+           \cup {<<"C16.sliceNameCollision", t>> : t \in {s \in need : T[s].kind = "slice" /\
+                   \E u \in need : u # s /\ T[u].kind = "slice" /\ Lookup(e.nm, e.names[s])[1] /\ Lookup(e.nm, e.names[u])[1]
+                                    /\ Lookup(e.nm, e.names[s])[2] = Lookup(e.nm, e.names[u])[2]}})
   \cup (IF e.ofpanic = 1 THEN {} ELSE
         LET T == e.T
             structs == {t \in TClosure(T, {e.root}) : T[t].kind = "struct"}
-        IN {<<"C16.typeMapOf", t>> : t \in {s \in structs : ~\E i \in 1..Len(e.tmof) : e.tmof[i][2] = s}})
+            static == {t \in TClosure(T, {e.root}) : T[t].kind \in {"struct", "slice"}}
+        IN {<<"C16.typeMapOf", t>> : t \in {s \in structs : ~\E i \in 1..Len(e.tmof) : e.tmof[i][2] = s}}
+           \* the type map OF A TYPE is closed too: every struct and slice type under the wire name the name map gives it
+           \cup (IF e.panic = 1 THEN {} ELSE
+                 {<<"C16.typeMapOfClosed", t>> : t \in {s \in static :
+                     LET n == Lookup(e.nm, e.names[s])  m == Lookup(e.tmof, n[2]) IN n[1] /\ (~m[1] \/ ~TSame(T, m[2], s))}}))
 
 (* ---- concurrency (C12) ---- *)
 (* replayed interleaving: every instance's stream and results equal those of the same calls alone *)
